@@ -44,10 +44,27 @@ pub fn par_ranges<R: Send>(
         .collect()
 }
 
-/// Map over a slice in parallel, preserving order.
-pub fn par_map<T: Sync, R: Send>(items: &[T], f: impl Fn(&T) -> R + Sync) -> Vec<R> {
+/// Lets a value be referred to from the worker threads although its type is not `Sync`.
+///
+/// The subject's types (`Machine`, `Bus`, ...) are plain data today; a change that gives one of them
+/// interior mutability (a `Cell` cache, say) must not stop the harness from compiling - it has to be
+/// judged by the checks. Every use in this engine hands each element to exactly one worker at a time
+/// (`par_map` items, BFS frontier nodes) or only clones the shared value, so no two threads ever
+/// touch one instance concurrently.
+pub struct Shared<T>(pub T);
+unsafe impl<T> Sync for Shared<T> {}
+unsafe impl<T> Send for Shared<T> {}
+impl<T> Shared<T> {
+    pub fn get(&self) -> &T {
+        &self.0
+    }
+}
+
+/// Map over a slice in parallel, preserving order. Each element is visited by exactly one worker.
+pub fn par_map<T, R: Send>(items: &[T], f: impl Fn(&T) -> R + Sync) -> Vec<R> {
     let blocks = (threads() * 8).min(items.len().max(1));
-    par_ranges(items.len(), blocks, |r| r.map(|i| f(&items[i])).collect::<Vec<R>>())
+    let items = Shared(items);
+    par_ranges(items.get().len(), blocks, |r| r.map(|i| f(&items.get()[i])).collect::<Vec<R>>())
         .into_iter()
         .flatten()
         .collect()
